@@ -201,6 +201,7 @@ def run(ctx):
         ctx.sample(s)
     several_faulty_parts(ctx, home, quick)
     race_detector_pass(ctx, home, quick)
+    history_independence(ctx, home, quick)
 
 
 def several_faulty_parts(ctx, home, quick):
@@ -270,6 +271,53 @@ def several_faulty_parts(ctx, home, quick):
         shutil.rmtree(base, ignore_errors=True)
 
     pmap(one, layouts, workers=4)
+
+
+def history_independence(ctx, home, quick):
+    """the output for a package must not depend on what the same process generated before: a long-running `generate --watch` is taken through a
+    sequence of saves in which the same definition names change their meaning, and after each save (once the regeneration has ended) the tree on
+    disk is compared with a one-shot generation of the same contents in a fresh process and directory."""
+    import time
+    from props import C20
+    y = common.build_yardl()
+    seqs = [[0, 1, 0, 2], [4, 3, 1]] if quick else [[0, 1, 0, 2, 3, 4, 0], [4, 3, 1, 0, 1], [2, 4, 2, 1, 3], [1, 0, 1, 0]]
+    for si, seq in enumerate(seqs):
+        root = os.path.join(ctx.workdir, "cases", "history_%d" % si)
+        shutil.rmtree(root, ignore_errors=True)
+        C20.write_tree(root, 0)
+        os.makedirs(os.path.join(root, "home"), exist_ok=True)
+        w = C20.Watcher(root, os.path.join(root, "home"), y)
+        bad = False
+        try:
+            if not w.wait_quiescent(1, limit_s=30):
+                raise Inconclusive("history %d: the watcher's first generation did not finish within 30 s wall" % si)
+            for step, mi in enumerate(seq):
+                starts = w.counts()[0]
+                C20.save(os.path.join(root, "main/model.yml"), C20.MEANINGS[mi], "inplace")
+                if not w.wait_quiescent(starts + 1, limit_s=25):
+                    raise Inconclusive("history %d: no finished regeneration within 25 s wall after save %d" % (si, step))
+                ref = os.path.join(root, "ref%d" % step)
+                C20.write_tree(ref, 0)
+                common.write_tree(ref, {"main/model.yml": C20.MEANINGS[mi]})
+                p = cli.run_cli("generate", os.path.join(ref, "main"), home)
+                ctx.ev(2)
+                if p.rc != 0:
+                    raise Inconclusive("history %d: reference generation failed: %s" % (si, cli.clean(p.stderr)[:300]))
+                want = {k: v[3] for k, v in fsmon.snapshot(os.path.join(ref, "out")).items() if v[0] == "file"}
+                have = {k: v[3] for k, v in fsmon.snapshot(os.path.join(root, "out")).items() if v[0] == "file"}
+                diff = sorted(k for k in want if have.get(k) != want[k])
+                ctx.case(("history", si, step))
+                ctx.count("history.compared")
+                if diff:
+                    ctx.violation("depends-on-history", "contents #%d generated by a process that had generated %s before differ from a fresh process in %d file(s), e.g. %s" % (
+                        mi, seq[:step], len(diff), diff[:3]), {"case_dir": root, "sequence": seq, "step": step})
+                    bad = True
+                    break
+                shutil.rmtree(ref, ignore_errors=True)
+        finally:
+            w.stop()
+        if not bad:
+            shutil.rmtree(root, ignore_errors=True)
 
 
 def race_detector_pass(ctx, home, quick):
